@@ -15,6 +15,7 @@ C03 mkfocal [qx,qy] [ax,ay] [srx,sry]           -> ok delta=[…] dims=[…] zer
 C03 ffpg q numairy|- lf                        -> ok delta=[…] dims=[…] zero=[…] slack=[…]   (make_focal_grid_from_pupil_grid)
 C03 impulse-idx [jx,jy] [kx,ky]                -> ok amp=… turns=…   (pupil index, focal index of the last `focal`)
 C03 impulse-at [jx,jy] [x,y]                   -> ok amp=… turns=…   (pupil index, arbitrary focal point)
+C03 mirror [sx,sy]                             -> ok delta=[…] zero=[…]   the current focal grid `.scaled([sx,sy])` (per-axis factors)
 C03 lens fwd|bwd cheaper emu [jx,jy] [kx,ky]   -> ok method=fft|mft val=c:t   the modelled *pipeline* (selection by
                                                   `choose detectFix`, then `fastForward2`/`mftForward` (or backward),
                                                   then the norm factor) on a unit impulse; value c·exp(2πi·t)
@@ -140,6 +141,15 @@ def step (st : St) : List String → St × String
       (st, showImpulse (impulseResponse s s.pupil.weight x (s.pupil.point j)))
     | none, some _, some _ => (st, "err value")
     | _, _, _ => (st, "bad-op")
+  | ["mirror", c] =>
+    match parseRatList? c, st.focal with
+    | some c, some g =>
+      if c.length == g.delta.length then
+        let g' := g.scaledAxes c
+        ({ st with focal := some g' }, s!"ok delta={showRatList g'.delta} zero={showRatList g'.zero}")
+      else (st, "err value")
+    | none, _ => (st, "bad-op")
+    | _, none => (st, "err value")
   | ["lens", dir, cheaper, emu, j, k] =>
     match (if dir == "fwd" then some Dir.fwd else if dir == "bwd" then some Dir.bwd else none),
       parseFlag? cheaper, parseFlag? emu, (parseNatList? j).bind pair?, (parseNatList? k).bind pair? with
